@@ -519,7 +519,9 @@ fn build(r: &mut StdRng, n: &str, comps: &[Value], valid: bool) -> Built {
                     }
                     // a content type dropshot does not know at all
                     "unsupported_content_type" => {
-                        ctype = Some(["text/plain", "application/xml", "application/jsonx", "image/png", "*/*", "application/json-patch+json"][r.gen_range(0..6)].into());
+                        ctype = Some(["text/plain", "application/xml", "application/jsonx", "image/png", "*/*", "application/json-patch+json",
+                            // header values with bytes beyond ASCII are legal on the wire (obs-text) and name no content type dropshot knows
+                            "text/plain; name=caf\u{e9}", "application/j\u{f8}son", "\u{65e5}\u{672c}/json"][r.gen_range(0..9)].into());
                         good
                     }
                     "null_body" => "null".to_string(),
